@@ -1,5 +1,6 @@
 import DendroModel.Basic.Tree
 import DendroModel.Model.TreeOps
+import DendroModel.Gen.C08Kernels
 /-! C08 — executable model of pruning / retaining / extracting (Mathlib-free; `drv_c08` runs these definitions).
 
 * `restrict` is the SPEC: the subtree induced by the leaves a predicate keeps, by structural recursion.
@@ -292,9 +293,16 @@ def strikeSpec (P : Nat → Bool) (fl fi : Bool) (t : T) : Option (Option T) :=
 /-- a namespace as the by-label entry points see it: its members in namespace order, each with accession bit and label -/
 abbrev Ns := List (Nat × String)
 
-/-- the namespace's case rule: labels are compared as they are when it is case-sensitive, lower-cased otherwise
-    (`str.lower()`; the model folds ASCII letters, the harness only generates ASCII labels) -/
-def foldCase (cs : Bool) (s : String) : String := if cs then s else s.toLower
+/-- `str.lower()` as far as the model knows it: code point by code point through the table REGENERATED from the source's choice of
+    fold method and the running interpreter (`Gen/C08Kernels.lean`, code points 0..255 = ASCII + Latin-1; identity above, where the
+    model does not claim anything: see `inFoldRange`) -/
+def foldStr (s : String) : String := String.ofList (s.toList.flatMap (fun c => (C08Kernels.foldCp c.toNat).map Char.ofNat))
+/-- the model's case folding is only claimed for labels made of code points below `foldLimit`; the driver answers `out-of-range`
+    for a case-insensitive lookup with any other label instead of guessing -/
+def inFoldRange (s : String) : Bool := s.toList.all (fun c => c.toNat < C08Kernels.foldLimit)
+/-- the namespace's case rule: labels are compared as they are when it is case-sensitive, folded (both the given and the stored
+    label, by the same method) otherwise -/
+def foldCase (cs : Bool) (s : String) : String := if cs then s else foldStr s
 def labelMatch (cs : Bool) (own given : String) : Bool := foldCase cs given == foldCase cs own
 
 /-- `TaxonNamespace._lookup_label(label)` without `first_match_only`: every member whose label matches, in namespace order -/
